@@ -164,4 +164,201 @@ def loadSnapshotsU (cache : Option Cache) (enc : Bool) (u : User) (re : Nat → 
     | .snap f sid => if re sid && visible enc u f then some (loadOne enc u f sid (viaCacheU cache f sid e.2)) else none
     | _ => none)
 
+/-! ## the cache DIRECTORY: `_store_cached`, one file-system operation at a time
+
+The sections above treat a store as one total step (`cacheAfterLoad`).  A command can be killed hard (SIGKILL, OOM, power loss:
+no Python handler runs) between any two file-system operations of `_store_cached`, or inside its write, and other clients sharing
+the directory run their own operations in between.  What such a run leaves is not only an entry with some content but also
+whatever OTHER files the store creates next to it (a temporary).  The operations `_store_cached` performs are read from its AST by
+the extractor (`Gen.cacheStorePlanRaw`, decoded by `storePlan`); the model executes them on the part of the directory that belongs
+to one entry name. -/
+
+/-- which file an operation of `_store_cached` addresses: the entry itself, or the temporary it keeps next to it -/
+inductive Slot
+  | entry | temp
+deriving DecidableEq, Repr
+
+inductive FsOp
+  | mkdirParents (existOk : Bool)           -- `file.parent.mkdir(parents=True, exist_ok=…)`
+  | create (t : Slot) (excl : Bool)         -- open for writing: 'wb' (create or truncate) / 'xb' (fails if the name exists)
+  | write (t : Slot)                        -- the payload goes to the file opened under that name (a kill leaves any prefix)
+  | rename (src dst : Slot)                 -- `os.replace`
+  | unlink (t : Slot) (missingOk : Bool)
+deriving DecidableEq, Repr
+
+inductive FsErr
+  | exists | missing
+deriving DecidableEq, Repr
+
+/-- what the directory holds for ONE entry name: the entry file, the temporary next to it, whether the parent directory exists.
+`Obj.blob 0` is an empty file, `Obj.blob (j+1)` a torn write; any other payload is as in `Cache`. -/
+structure Loc where
+  entry : Option Obj
+  temp : Option Obj
+  parent : Bool
+deriving DecidableEq, Repr
+
+def getSlot (l : Loc) : Slot → Option Obj
+  | .entry => l.entry
+  | .temp => l.temp
+
+def setSlot (l : Loc) (t : Slot) (x : Option Obj) : Loc :=
+  match t with
+  | .entry => { l with entry := x }
+  | .temp => { l with temp := x }
+
+/-- one operation; `o` is the payload being stored.  A write goes to the open FILE: it cannot fail because of names (if the name
+was unlinked or renamed away meanwhile the bytes go to a file the name no longer denotes). -/
+def stepFs (o : Obj) (l : Loc) : FsOp → Except FsErr Loc
+  | .mkdirParents ok => if l.parent && !ok then .error .exists else .ok { l with parent := true }
+  | .create t excl =>
+    if !l.parent then .error .missing
+    else match getSlot l t with
+      | some _ => if excl then .error .exists else .ok (setSlot l t (some (.blob 0)))
+      | none => .ok (setSlot l t (some (.blob 0)))
+  | .write t =>
+    match getSlot l t with
+    | some _ => .ok (setSlot l t (some o))
+    | none => .ok l
+  | .rename a b =>
+    match getSlot l a with
+    | none => .error .missing
+    | some x => .ok (setSlot (setSlot l a none) b (some x))
+  | .unlink t mo =>
+    match getSlot l t with
+    | none => if mo then .ok l else .error .missing
+    | some _ => .ok (setSlot l t none)
+
+def runOps (o : Obj) : List FsOp → Loc → Except FsErr Loc
+  | [], l => .ok l
+  | op :: rest, l => match stepFs o l op with
+    | .error e => .error e
+    | .ok l' => runOps o rest l'
+
+/-- the same, with OTHER clients acting on the same names before each operation (`envs`: one arbitrary transformation per
+operation; what they may do is restricted by `EnvOk` in the theorems) -/
+def runOpsI (o : Obj) : List FsOp → List (Loc → Loc) → Loc → Except FsErr Loc
+  | [], _, l => .ok l
+  | op :: rest, envs, l => match stepFs o ((envs.headD id) l) op with
+    | .error e => .error e
+    | .ok l' => runOpsI o rest envs.tail l'
+
+/-- a temporary whose name is unique to the run (pid / uuid / `tempfile`) is absent when the store starts, whatever earlier runs
+left; a deterministic one is whatever the directory holds under that name -/
+def startLoc (tempUnique : Bool) (l : Loc) : Loc := if tempUnique then { l with temp := none } else l
+
+def runStore (ops : List FsOp) (tempUnique : Bool) (o : Obj) (l : Loc) : Except FsErr Loc :=
+  runOps o ops (startLoc tempUnique l)
+
+/-- the write at hand was torn: the file holds a proper prefix -/
+def tearOp (j : Nat) (l : Loc) : Option FsOp → Loc
+  | some (.write t) => (match getSlot l t with | some _ => setSlot l t (some (.blob (j + 1))) | none => l)
+  | _ => l
+
+/-- **a hard kill**: the first `k` operations ran; `tear = some j`: the process died inside operation `k` (if that is a write) -/
+def killed (ops : List FsOp) (tempUnique : Bool) (k : Nat) (tear : Option Nat) (o : Obj) (l : Loc) : Except FsErr Loc :=
+  match runOps o (ops.take k) (startLoc tempUnique l) with
+  | .error e => .error e
+  | .ok l' => .ok (match tear with | none => l' | some j => tearOp j l' ops[k]?)
+
+/-! ### static safety of a plan: no operation can fail, whatever the directory holds and whatever other clients do meanwhile
+
+state = (the parent directory is known to exist, this run's UNIQUE temporary is known to exist).  Nothing is known about the
+entry (another client may create, replace or evict it at any time) nor about a temporary with a deterministic name (another
+client — or an earlier, killed run — owns the same name). -/
+def safeStep (tu : Bool) : Bool × Bool → FsOp → Option (Bool × Bool)
+  | (_, tmp), .mkdirParents ok => if ok then some (true, tmp) else none
+  | (par, tmp), .create .entry excl => if par && !excl then some (par, tmp) else none
+  | (par, tmp), .create .temp excl => if par && (!excl || (tu && !tmp)) then some (par, tu) else none
+  | st, .write _ => some st
+  | (par, tmp), .rename .temp b => if tu && tmp then some (par, b == .temp) else none
+  | _, .rename .entry _ => none
+  | (par, tmp), .unlink .temp mo => if mo || (tu && tmp) then some (par, false) else none
+  | (par, tmp), .unlink .entry mo => if mo then some (par, tmp) else none
+
+def planSafeFrom (tu : Bool) : Bool × Bool → List FsOp → Bool
+  | _, [] => true
+  | st, op :: rest => match safeStep tu st op with
+    | none => false
+    | some st' => planSafeFrom tu st' rest
+
+def planSafe (tu : Bool) (ops : List FsOp) : Bool := planSafeFrom tu (false, false) ops
+
+/-- does a completed, undisturbed run leave the payload under the entry name?  (`none` = unknown, `some full`) -/
+def effStep : Option Bool × Option Bool → FsOp → Option Bool × Option Bool
+  | st, .mkdirParents _ => st
+  | (_, t), .create .entry _ => (some false, t)
+  | (e, _), .create .temp _ => (e, some false)
+  | (e, t), .write .entry => (e.map fun _ => true, t)
+  | (e, t), .write .temp => (e, t.map fun _ => true)
+  | (_, t), .rename .temp .entry => (t, none)
+  | (e, _), .rename .entry .temp => (none, e)
+  | st, .rename _ _ => st
+  | (_, t), .unlink .entry _ => (none, t)
+  | (e, _), .unlink .temp _ => (e, none)
+
+def planEffective (ops : List FsOp) : Bool := (ops.foldl effStep (none, none)).1 == some true
+
+/-! ### the plan of the code at hand (decoded from `Generated.lean`) -/
+def decodeSlot : String → Option Slot
+  | "entry" => some .entry
+  | "temp" => some .temp
+  | _ => none
+
+def decodeOp : String × String × String × Bool → Option FsOp
+  | ("mkdir", _, _, ok) => some (.mkdirParents ok)
+  | ("create", t, _, excl) => (decodeSlot t).map fun t => .create t excl
+  | ("write", t, _, _) => (decodeSlot t).map fun t => .write t
+  | ("rename", a, b, _) => match decodeSlot a, decodeSlot b with
+    | some a, some b => some (.rename a b)
+    | _, _ => none
+  | ("unlink", t, _, mo) => (decodeSlot t).map fun t => .unlink t mo
+  | _ => none
+
+/-- `none`: the extractor did not recognise `_store_cached` (the theorems that need the plan then do not compile) -/
+def storePlan : Option (List FsOp) :=
+  if Gen.cacheStoreRecognised then Gen.cacheStorePlanRaw.mapM decodeOp else none
+
+/-- the plan was recognised, cannot fail (`planSafe`) and leaves the payload under the entry name (`planEffective`) -/
+def storePlanOk : Bool :=
+  match storePlan with
+  | some p => planSafe Gen.cacheTempUnique p && planEffective p
+  | none => false
+
+/-! ### a command of a client whose cache directory is `d` — with the stores it performs -/
+
+structure CDir where
+  entries : Cache            -- the files under entry names (what `_get_cached` can read)
+  temps : Cache              -- deterministic temporaries lying next to entries, keyed by the entry's name
+  noParent : List Name       -- entries whose parent directory does not exist (yet)
+
+def CDir.loc (d : CDir) (n : Name) : Loc := ⟨get d.entries n, get d.temps n, !d.noParent.contains n⟩
+
+/-- the snapshots `_load_snapshots` downloads, verifies and then stores (same condition as `cacheAfterLoad`) -/
+def toStore (c : Cache) (enc : Bool) (u : User) (re : Nat → Bool) (s : Store) : List (Name × Obj) :=
+  s.filter fun e =>
+    match e.1, e.2 with
+    | .snap f sid, .snap f' sid' _ => re sid && visible enc u f && f' == f && sid' == sid && !cacheUsable c f sid
+    | _, _ => false
+
+inductive CErr
+  | repo (e : Err)           -- what the command reports without a cache too
+  | store (e : FsErr)        -- `_store_cached` raised: the command fails BECAUSE of the cache directory
+deriving DecidableEq, Repr
+
+/-- `_load_snapshots` of a client with cache directory `d`: a failing store fails the command -/
+def loadSnapshotsD (plan : List FsOp) (tu : Bool) (d : CDir) (enc : Bool) (u : User) (re : Nat → Bool) (s : Store) :
+    Except CErr (List Loaded) :=
+  match loadSnapshotsC (some d.entries) enc u re s with
+  | .error e => .error (.repo e)
+  | .ok ls =>
+    match (toStore d.entries enc u re s).findSome? (fun e =>
+        match runStore plan tu e.2 (d.loc e.1) with | .error x => some x | .ok _ => none) with
+    | some x => .error (.store x)
+    | none => .ok ls
+
+def liftErr {α : Type} : Except Err α → Except CErr α
+  | .error e => .error (.repo e)
+  | .ok a => .ok a
+
 end Replicat.CacheCmd
